@@ -13,6 +13,7 @@ import (
 
 	"verif/internal/drive"
 	"verif/internal/ev"
+	"verif/internal/gen"
 	"verif/internal/par"
 	"verif/internal/ref"
 )
@@ -178,13 +179,23 @@ func poison(x any) {
 	}
 }
 
-func toVal(x any) (*ref.Val, error) { return ref.FromPlain(x) }
+func toVal(x any) (*ref.Val, error) {
+	if v, err := ref.FromPlain(x); err == nil {
+		return v, nil
+	}
+	// typed containers: through their JSON encoding
+	b, err := json.Marshal(x)
+	if err != nil {
+		return nil, err
+	}
+	return ref.Parse(string(b))
+}
 
 func Run(r *ev.Run) {
 	thorough := r.Tier == "thorough"
 	schemas := Schemas(thorough)
 	insts := Instances()
-	r.Rule("default-bearing properties trees of depth<=3 (+depth-4 spines) over names {a,b}: per node default in {absent,1,\"s\",null,{},{\"a\":5},[1],{\"a\":{\"b\":[1]}},[[1],{\"k\":[2]}]}, required subsets, typed/untyped leaves x every JSON value of depth<=2 over keys {a,b,c} with leaves {1,\"s\",null,[],{}} plus selected depth 3, passed as *any and as *map[string]any. " +
+	r.Rule("default-bearing properties trees of depth<=3 (+depth-4 spines) over names {a,b}: per node default in {absent,1,\"s\",null,{},{\"a\":5},[1],{\"a\":{\"b\":[1]}},[[1],{\"k\":[2]}]}, required subsets, typed/untyped leaves x every JSON value of depth<=2 over keys {a,b,c} with leaves {1,\"s\",null,[],{}} plus selected depth 3, passed as *any, *map[string]any, *map[MyKey]any and (objects of objects) *map[string]map[string]any / *map[string]map[MyKey]any. " +
 		"Histories (explored exhaustively per pair): apply; apply.apply (idempotence); apply.scribble-over-the-result.apply(fresh instance) must equal the first result; apply.delete(k).apply for every top-level key k the first apply inserted, then apply again. Every apply step is judged by the R4 laws from the state it started in. ValidateDefaults: Resolve(ValidateDefaults) succeeds iff R1 validates every default against its declaring subschema (also for defaults under items/allOf/$defs/additionalProperties, and for pairs of subschemas with the same type and default text but different constraints, in both orders and 7 placements). states = distinct (schema, instance-state) pairs reached, transitions = ApplyDefaults/Validate/Resolve calls. Non-trivial = the first apply inserted something")
 	r.Assume("R4 laws: present values untouched, nothing inserted for a required name, inserted value = declared default lawfully completed, or a container holding >=1 inserted default; the laws do not oblige a default to be filled",
 		"struct targets and nil maps are outside the domain; no $dynamicRef in the ValidateDefaults space")
@@ -212,6 +223,11 @@ func Run(r *ev.Run) {
 			}
 			transitions.Add(1)
 			if aerr != nil {
+				if strings.Contains(key, "[*map[string]map[") && strings.Contains(aerr.Error(), "cannot unmarshal") {
+					// the element type of the caller's map cannot hold the declared default: the caller's mismatch
+					r.Add("typed_target_cannot_hold_default", 1)
+					return nil, false
+				}
 				r.Fail(key, map[string]any{"class": "ApplyDefaults error", "error": aerr.Error()})
 				return nil, false
 			}
@@ -233,17 +249,58 @@ func Run(r *ev.Run) {
 			}
 			j.Begin(key)
 			before := ref.MustParse(it)
-			for _, mode := range []string{"*any", "*map[string]any"} {
+			for _, mode := range []string{"*any", "*map[string]any", "*map[MyKey]any", "*map[string]map[string]any", "*map[string]map[MyKey]any"} {
 				var target any
 				var x any = before.Plain()
-				if mode == "*any" {
+				typed := false
+				switch mode {
+				case "*any":
 					target = &x
-				} else {
+				case "*map[string]any":
 					m, ok := x.(map[string]any)
 					if !ok {
 						continue
 					}
 					target = &m
+				case "*map[MyKey]any":
+					m, ok := x.(map[string]any)
+					if !ok || (!thorough && si%2 != 0) {
+						continue
+					}
+					conv := map[gen.MyKey]any{}
+					for k, v := range m {
+						conv[gen.MyKey(k)] = v
+					}
+					target, typed = &conv, true
+				default:
+					// typed element maps: only for instances whose members are all objects (quick: every 4th schema)
+					m, ok := x.(map[string]any)
+					if !ok || len(m) == 0 || (!thorough && si%4 != 0) {
+						continue
+					}
+					c1 := map[string]map[string]any{}
+					c2 := map[string]map[gen.MyKey]any{}
+					for k, v := range m {
+						vm, isObj := v.(map[string]any)
+						if !isObj {
+							ok = false
+							break
+						}
+						c1[k] = vm
+						c2[k] = map[gen.MyKey]any{}
+						for kk, vv := range vm {
+							c2[k][gen.MyKey(kk)] = vv
+						}
+					}
+					if !ok {
+						continue
+					}
+					if mode == "*map[string]map[string]any" {
+						target = &c1
+					} else {
+						target = &c2
+					}
+					typed = true
 				}
 				k1 := key + " [" + mode + "] apply"
 				after, ok := apply(k1, target, before)
@@ -259,6 +316,9 @@ func Run(r *ev.Run) {
 				after2, ok := apply(k1+".apply", target, after)
 				if ok && after2.Canon() != after.Canon() {
 					r.Fail(k1+".apply", map[string]any{"class": "not idempotent", "first": after.JSON(), "second": after2.JSON()})
+				}
+				if typed {
+					continue // the histories below edit plain containers
 				}
 				// the caller scribbles over every container of the result (it owns them); a fresh
 				// instance completed from the same Resolved must still get the declared defaults
@@ -374,6 +434,29 @@ func vdSchemas(trees []string) []string {
 			for _, w := range wrap {
 				out = append(out, fmt.Sprintf(w, with))
 			}
+		}
+	}
+	// defaults next to $ref, under conditional / dependent / contains keywords, and in draft-07 documents
+	for _, d := range []string{`1`, `"s"`, `null`, `{"a":"x"}`} {
+		for _, w := range []string{
+			`{"$defs":{"i":{"type":"integer"}},"properties":{"p":{"$ref":"#/$defs/i","default":%s}}}`,
+			`{"$defs":{"i":{"type":"integer","default":%s}},"properties":{"p":{"$ref":"#/$defs/i"}}}`,
+			`{"$defs":{"o":{"properties":{"a":{"type":"integer"}}}},"$ref":"#/$defs/o","default":%s}`,
+			`{"if":{"type":"object"},"then":{"type":"integer","default":%s}}`,
+			`{"if":true,"else":{"type":"integer","default":%s}}`,
+			`{"dependentSchemas":{"a":{"type":"integer","default":%s}}}`,
+			`{"contains":{"type":"integer","default":%s}}`,
+			`{"propertyNames":{"maxLength":0,"default":%s}}`,
+			`{"unevaluatedProperties":{"type":"integer","default":%s}}`,
+			`{"patternProperties":{"^a":{"type":"integer","default":%s}}}`,
+			`{"oneOf":[{"type":"integer","default":%s},{"type":"string"}]}`,
+			`{"$schema":"http://json-schema.org/draft-07/schema#","properties":{"p":{"type":"integer","default":%s}}}`,
+			`{"$schema":"http://json-schema.org/draft-07/schema#","definitions":{"i":{"type":"integer"}},"properties":{"p":{"$ref":"#/definitions/i","default":%s}}}`,
+			`{"$schema":"http://json-schema.org/draft-07/schema#","items":[{"type":"integer","default":%s}],"additionalItems":{"type":"string","default":%s}}`,
+			`{"$schema":"http://json-schema.org/draft-07/schema#","dependencies":{"a":{"type":"integer","default":%s}}}`,
+			`{"properties":{"p":{"type":"integer","default":%s,"properties":{"q":{"type":"string","default":%s}}}}}`,
+		} {
+			out = append(out, strings.ReplaceAll(w, "%s", d))
 		}
 	}
 	// two subschemas with the same type keyword and byte-identical default text but different
